@@ -114,6 +114,8 @@ def sym_len(x):
     """``len`` shim for nsl.WebAssembly: symbolic for opaque blobs and buffers."""
     if isinstance(x, Opaque):
         return x.length
+    if hasattr(x, "char_len"):          # opaque str: number of code points, a symbol of its own
+        return x.char_len
     if isinstance(x, ChunkView):
         return length_of(x)
     if isinstance(x, SymBytes):
